@@ -205,6 +205,10 @@ theorem C16_link_returns_the_slot : Skeleton.current.linkReturnsOnlyFatalSlot = 
 theorem C16_proxy_failures_are_fatal :
     Skeleton.current.pxRecoverReports = true ∧ Skeleton.current.seClosesOnEveryPath = true := by decide
 
+/-- A closure that panics — with a runtime error too — is an error result of that invocation (`utils.Call` recovers every panic and re-raises none; every `panic(…)` of the library hands on a tested error, a sentinel or a context's error): `Link` keeps blocking (checked against the regenerated skeleton; `utils/call.go` is outside this property's anchors). -/
+theorem C16_a_panicking_closure_does_not_end_the_link :
+    Skeleton.current.ucRecovers = true ∧ Skeleton.current.ucNonErrorPanicMapped = true ∧ Skeleton.current.panicSitesCanonical = true ∧ Skeleton.current.clCallViaUtilsCall = true ∧ Skeleton.current.ucResultsUntouched = true := by decide
+
 end Panrpc.Ep
 
 #print axioms Panrpc.Ep.C16_setErr_waits_for_nobody
@@ -225,3 +229,4 @@ end Panrpc.Ep
 #print axioms Panrpc.Ep.C16_overwrite_on_pinned
 #print axioms Panrpc.Ep.C16_link_returns_the_slot
 #print axioms Panrpc.Ep.C16_proxy_failures_are_fatal
+#print axioms Panrpc.Ep.C16_a_panicking_closure_does_not_end_the_link
